@@ -18,6 +18,7 @@ import (
 	"math"
 	"strings"
 
+	"github.com/sboehler/knut/lib/common/compare"
 	"github.com/sboehler/knut/lib/common/dict"
 	"github.com/sboehler/knut/lib/common/set"
 	"github.com/sboehler/knut/lib/syntax"
@@ -98,7 +99,7 @@ func (m *Model) inferAccount(t *syntax.Transaction, b *syntax.Booking, other str
 		max    = math.Inf(-1)
 		best   string
 	)
-	for candidate := range m.countByAccount {
+	for _, candidate := range dict.SortedKeys(m.countByAccount, compare.Ordered[string]) {
 		if candidate == other {
 			continue // the other account of this booking is not a valid candidate
 		}
